@@ -67,7 +67,7 @@ func NewFakeHost(id peer.ID, addrs []ma.Multiaddr) *FakeHost {
 	h := &FakeHost{
 		id:       id,
 		ps:       ps,
-		bus:      eventbus.NewBus(),
+		bus:      &CountingBus{Bus: eventbus.NewBus()},
 		cmgr:     &connmgr.NullConnMgr{},
 		addrs:    addrs,
 		handlers: map[protocol.ID]network.StreamHandler{},
@@ -83,6 +83,9 @@ func (h *FakeHost) Net() *FakeNet                    { return h.net }
 func (h *FakeHost) Mux() protocol.Switch             { return nil }
 func (h *FakeHost) ConnManager() connmgr.ConnManager { return h.cmgr }
 func (h *FakeHost) EventBus() event.Bus              { return h.bus }
+
+// OpenSubscriptions is the number of event-bus subscriptions that are open on this host.
+func (h *FakeHost) OpenSubscriptions() int { return h.bus.(*CountingBus).OpenSubscriptions() }
 
 func (h *FakeHost) Addrs() []ma.Multiaddr {
 	h.mu.Lock()
